@@ -343,6 +343,32 @@ macro_rules! full_set {
                         }
                         vec![oint(acc), oint(first), oint(sg_::verify(&sig, m, pk) as i32)]
                     }
+                    // honest-path volume: n key generations (and one signature + verification every `every` keys) under
+                    // catch_unwind; returns panics, first panicking seed, sign/verify failures
+                    "keygen_volume" => {
+                        let mut st = (int(&a[0]) as u64) | 1;
+                        let n = int(&a[1]) as usize; let every = (int(&a[2]) as usize).max(1);
+                        let mut next = move || { st ^= st << 13; st ^= st >> 7; st ^= st << 17; st };
+                        let mut pan = 0i64; let mut first: Vec<u8> = vec![]; let mut bad = 0i64;
+                        for i in 0..n {
+                            let seed: Vec<u8> = (0..32).map(|_| next() as u8).collect();
+                            let r = std::panic::catch_unwind(|| {
+                                let mut pk = vec![0u8; par::PUBLICKEYBYTES]; let mut sk = vec![0u8; par::SECRETKEYBYTES];
+                                sg_::keypair(&mut pk, &mut sk, Some(&seed));
+                                if i % every == 0 {
+                                    let mut sig = vec![0u8; par::SIGNBYTES];
+                                    sg_::signature(&mut sig, &seed, &sk, false);
+                                    sg_::verify(&sig, &seed, &pk)
+                                } else { true }
+                            });
+                            match r {
+                                Ok(true) => {}
+                                Ok(false) => bad += 1,
+                                Err(_) => { pan += 1; if first.is_empty() { first = seed.clone(); } }
+                            }
+                        }
+                        vec![oint(pan), obytes(&first), oint(bad)]
+                    }
                     "keypair_digest" => {
                         let mut pk = vec![0u8; par::PUBLICKEYBYTES]; let mut sk = vec![0u8; par::SECRETKEYBYTES];
                         sg_::keypair(&mut pk, &mut sk, Some(bytes(&a[0])));
@@ -699,6 +725,7 @@ pub fn dispatch(f: &str, copy: &str, a: &[Arg]) -> Option<Vec<Out>> {
             let id = ints(&a[0])[0];
             sweep(id, _copy_for_sweep(copy), int(&a[1]) as i64, int(&a[2]) as i64, int(&a[3]) as i64)
         }
+        "history" => Some(crate::history::run(a).into_iter().map(|v| oint(v)).collect()),
         "purity" => {
             let (n, e, m, f) = crate::purity::run(int(&a[0]) as u64, int(&a[1]) as usize, int(&a[2]) as usize, int(&a[3]) as usize);
             Some(vec![oint(n), oint(e), oint(m), oint(f)])
